@@ -5,7 +5,8 @@ From Coq Require Import ZArith List Lia Bool Reals Lra.
 From PR Require Import Base.Num Base.RNum Base.ZX Base.Slice Model.Partition Model.Blockwise Model.BlockwiseSpec
      Model.BlockwiseValid Model.BlockwiseBF Gen.GenC05
      Proofs.C05_assemble Proofs.C05_pipeline Proofs.C05_mask Proofs.C05_dims Proofs.C05_flatten
-     Proofs.C05_gen Proofs.C05_cache Proofs.C05_bruteforce Proofs.C05_dimsok.
+     Proofs.C05_gen Proofs.C05_cache Proofs.C05_bruteforce Proofs.C05_dimsok Proofs.C05_imp_dims.
+From PR Require Base.Imp Gen.GenC05imp.
 Import ListNotations.
 Open Scope Z_scope.
 
@@ -306,4 +307,54 @@ Example C05_dim_order_ex :       (* names: 0 = y, 1 = x, 2 = bands *)
   /\ geo_dims_ok [1; 0] [0; 1] = false /\ geo_dims_ok [2; 1; 0] [0; 1] = false      (* swapped *)
   /\ geo_dims_ok [0; 2; 1] [0; 1] = false                                           (* not adjacent *)
   /\ geo_dims_ok [3; 4] [0; 1] = false.                                             (* other names *)
+Proof. repeat split; reflexivity. Qed.
+
+(* ---------------------------------------------------------------------------------------------------------------
+   code is model: the dimension checks themselves, translated from /repo on every run by tools/py2coq_imp.py
+   (Gen/GenC05imp.v; extra parameters is_swath / swath_dims / [y; x] / src_shape stand for
+   isinstance(source_geo_def, SwathDefinition), source_geo_def.lons.dims, the literal ('y', 'x'), source_geo_def.shape) *)
+
+(* XArrayResamplerNN._get_valid_dims returns (source geo dims, ('y','x')) exactly when geo_dims_ok holds and raises
+   otherwise (never runs out of fuel: it has no loop) *)
+Theorem C05_get_valid_dims_code_is_model : forall (data : darr) (is_swath : bool) (swath_dims : list Z) (y x : Z),
+  let geo := if is_swath then swath_dims else [y; x] in
+  geo <> [] ->
+  Imp.value_of (GenC05imp.imp_get_valid_dims data is_swath swath_dims y x)
+  = if geo_dims_ok (dd_dims data) geo then Imp.COk (geo, [y; x]) else Imp.CRaised.
+Proof. exact get_valid_dims_code_is_model. Qed.
+Print Assumptions C05_get_valid_dims_code_is_model.
+
+(* KDTreeNearestXarrayResampler._verify_data_geo_dims (including its loop over the geometry dims comparing sizes)
+   completes exactly when geo_dims_ok and geo_sizes_ok hold and raises otherwise *)
+Theorem C05_verify_data_geo_dims_code_is_model : forall (data : darr) (geo src_shape : list Z),
+  geo <> [] ->
+  let first := Z.of_nat (zindex (hd 0 geo) (dd_dims data)) in
+  let accepted := geo_dims_ok (dd_dims data) geo && geo_sizes_ok (dd_shape data) src_shape first (Imp.zlen geo) in
+  if accepted then exists s, Imp.state_of (GenC05imp.imp_verify_data_geo_dims data geo src_shape) = Imp.COk s
+  else Imp.state_of (GenC05imp.imp_verify_data_geo_dims data geo src_shape) = Imp.CRaised.
+Proof. exact verify_data_geo_dims_code_is_model. Qed.
+Print Assumptions C05_verify_data_geo_dims_code_is_model.
+
+(* hence, about the GENERATED function: whenever the translated _get_valid_dims returns, the data dims carry the
+   geometry's dims consecutively and in the geometry's own order (the hypotheses of C05_dims_dtype_preserved);
+   data with swapped / renamed / split geo dims makes it raise *)
+Theorem C05_generated_check_accepts_only_geometry_order :
+  forall (data : darr) (is_swath : bool) (swath_dims : list Z) (y x : Z) r,
+  let geo := if is_swath then swath_dims else [y; x] in
+  geo <> [] ->
+  Imp.value_of (GenC05imp.imp_get_valid_dims data is_swath swath_dims y x) = Imp.COk r ->
+  r = (geo, [y; x]) /\
+  exists lead trail, dd_dims data = lead ++ geo ++ trail /\
+    Forall (fun d => memb d geo = false) lead /\ Forall (fun d => memb d geo = false) trail.
+Proof.
+  intros data is_swath swath_dims y x r geo Hne H.
+  rewrite (get_valid_dims_code_is_model data is_swath swath_dims y x Hne) in H. fold geo in H.
+  destruct (geo_dims_ok (dd_dims data) geo) eqn:E; [|discriminate].
+  inversion H. split; [reflexivity|]. apply geo_dims_ok_spec. exact E.
+Qed.
+Print Assumptions C05_generated_check_accepts_only_geometry_order.
+Example C05_imp_dims_ex :      (* names: 0 = y, 1 = x, 2 = bands *)
+  Imp.value_of (GenC05imp.imp_get_valid_dims (mk_darr [2; 0; 1] [3; 4; 5]) false [] 0 1) = Imp.COk ([0; 1], [0; 1])
+  /\ Imp.value_of (GenC05imp.imp_get_valid_dims (mk_darr [2; 1; 0] [3; 5; 4]) false [] 0 1) = Imp.CRaised
+  /\ Imp.state_of (GenC05imp.imp_verify_data_geo_dims (mk_darr [0; 1; 2] [4; 5; 3]) [0; 1] [4; 6]) = Imp.CRaised.
 Proof. repeat split; reflexivity. Qed.
